@@ -1,14 +1,11 @@
 #!/bin/sh
-# runs every check of a tier sequentially and prints one status line each
+# runs every check of a tier and prints one status line each; JOBS (default 1) checks side by side
+# (every check has its own scratch directory and evidence file)
 tier=${1:-quick}
 cd "$(dirname "$0")/.."
-for p in C01 C02 C03 C04 C05 C06 C07 C08 C09 C10 C11 C12 C13 C14 C15 C16 C17; do
-  s=$(date +%s)
-  ./check $p --tier $tier > .runall.$p.log 2>&1
-  rc=$?
-  e=$(date +%s)
-  echo "$p rc=$rc $((e-s))s $(grep -c '^VIOLATION' .runall.$p.log) violations, $(grep -c '^KNOWN-FINDING' .runall.$p.log) known, $(grep -c '^MODEL-DRIFT' .runall.$p.log) drift"
-done
-# one line that cannot be missed: which checks did not end with rc=0
-bad=$(for p in C01 C02 C03 C04 C05 C06 C07 C08 C09 C10 C11 C12 C13 C14 C15 C16 C17; do if grep -q "^VIOLATION\|^BROKEN" .runall.$p.log 2>/dev/null; then printf "%s " $p; fi; done)
+props="C01 C02 C03 C04 C05 C06 C07 C08 C09 C10 C11 C12 C13 C14 C15 C16 C17"
+echo $props | tr ' ' '\n' | xargs -P ${JOBS:-1} -I{} sh -c 'p={}; s=$(date +%s); ./check $p --tier '$tier' > .runall.$p.log 2>&1; rc=$?; e=$(date +%s); echo "$p rc=$rc $((e-s))s $(grep -c "^VIOLATION" .runall.$p.log) violations, $(grep -c "^KNOWN-FINDING" .runall.$p.log) known, $(grep -c "^MODEL-DRIFT" .runall.$p.log) drift"'
+# one line that cannot be missed: which checks did not end clean
+bad=$(for p in $props; do if grep -q "^VIOLATION\|^BROKEN" .runall.$p.log 2>/dev/null; then printf "%s " $p; fi; done)
 echo "SUMMARY tier=$tier not-clean: ${bad:-none}"
+exit
